@@ -243,9 +243,16 @@ fn inline_image_bytes(r: &mut Rng) -> (Vec<u8>, usize, Vec<u8>) {
     }
     out.extend_from_slice(b"BI");
     let (kw, kh, kcs, kbpc) = if long { ("Width", "Height", "ColorSpace", "BitsPerComponent") } else { ("W", "H", "CS", "BPC") };
-    out.extend_from_slice(format!(" /{} {} /{} {} /{} /{} /{} {}", kw, w, kh, h, kcs, cs, kbpc, bpc).as_bytes());
+    // entries in any order (the order is kept by decode and encode, so each kind of value comes last now and then)
+    let mut entries: Vec<String> = vec![format!("/{} {}", kw, w), format!("/{} {}", kh, h), format!("/{} /{}", kcs, cs), format!("/{} {}", kbpc, bpc)];
     if r.chance(1, 4) {
-        out.extend_from_slice(b" /I true /D [0 1]");
+        entries.push("/I true".into());
+        entries.push("/D [0 1]".into());
+    }
+    r.shuffle(&mut entries);
+    for e in &entries {
+        out.push(b' ');
+        out.extend_from_slice(e.as_bytes());
     }
     out.extend_from_slice(*r.pick(&[&b"\nID\n"[..], b" ID ", b"\nID "]));
     out.extend_from_slice(&data);
